@@ -421,3 +421,153 @@ def error_discipline(ctx, res):
                        f"{f} can return a negative status with no exception "
                        f"set")
     res.floor(100)
+
+
+# ---------------------------------------------------------------------------
+# C18.null-checked: a pointer that can be NULL is tested before it is used
+
+NULL_TOLERANT = {"Py_XDECREF", "Py_XINCREF", "Py_CLEAR", "PyErr_SetObject",
+                 "PyErr_Restore", "PyErr_NormalizeException"}
+
+
+def _null_tolerant_params(facts, paths):
+    """(function, parameter index) pairs of in-file functions that compare
+    that parameter with NULL before doing anything else with it"""
+    out = set()
+    for f, ps in paths.items():
+        if not ps:
+            continue
+        params = [q.name for q in facts.params(f)]
+        for i, q in enumerate(params):
+            ok = True
+            for p in ps:
+                tested = False
+                for it in p.trace:
+                    if it[0] == "atom" and q in it[1] and (
+                            f"(0 == {q})" in it[1] or f"({q} == 0)" in it[1]
+                            or f"(0 != {q})" in it[1] or f"({q} != 0)" in it[1]
+                            or it[1] == q):
+                        tested = True
+                        break
+                    if it[0] == "call" and q in it[2] and it[1] not in (
+                            "Py_XDECREF", "Py_XINCREF"):
+                        break
+                if not tested and any(it[0] == "call" and q in it[2]
+                                      for it in p.trace):
+                    ok = False
+                    break
+            if ok and any(any(it[0] == "atom" and q in it[1]
+                              for it in p.trace) for p in ps):
+                out.add((f, i))
+    return out
+
+
+def _null_paths_feasible(facts, callee_paths, callee_name, args):
+    """does the callee have a NULL-returning path compatible with the
+    constant arguments of this call site?"""
+    import re
+    from ..csym import _fold
+    params = [q.name for q in facts.params(callee_name)]
+    consts = {params[i]: a for i, a in enumerate(args)
+              if i < len(params) and re.fullmatch(r"-?\d+", a)}
+    for p in callee_paths or []:
+        if p.outcome != ("RETURN", "0"):
+            continue
+        feasible = True
+        for it in p.trace:
+            if it[0] != "atom" or not isinstance(it[2], bool):
+                continue
+            t = it[1]
+            for q, c in consts.items():
+                t = re.sub(rf"\b{re.escape(q)}\b", c, t)
+            v = _fold(t)
+            if v is not None and v != it[2]:
+                feasible = False
+                break
+        if feasible:
+            return True
+    return False
+# callees whose NULL is not an error but still must not be dereferenced are
+# covered too; pure allocators (NULL only when memory is exhausted) are left
+# to the allocator-failure policy of C18.ownership
+
+
+def _can_return_null(facts, paths_of_callee):
+    """an in-file function has a path returning 0/NULL"""
+    return any(p.outcome == ("RETURN", "0") for p in paths_of_callee or [])
+
+
+@rule("C18.null-checked", ["C18", "C11"],
+      "the result of a call that can return NULL for a reason other than "
+      "memory exhaustion (lookups, name mappers, attribute access, calls into "
+      "Python) is compared with NULL before it is passed on or dereferenced")
+def null_checked(ctx, res):
+    from ..csym import cached_paths, flush_paths
+    from .cown import is_field_text
+    facts = get_cfacts(ctx)
+    funcs = list(facts.defined_functions())
+    paths = {f: cached_paths(ctx, facts, f) for f in funcs}
+    flush_paths(ctx)
+    may_null = {f for f in funcs if returns_pointer(facts, f)
+                and _can_return_null(facts, paths[f])}
+    # handler slots: any table member that can return NULL
+    from .crec import _field_tables
+    slot_null = {}
+    for fld, table in _field_tables(facts).items():
+        slot_null["->" + fld] = any(m in may_null
+                                    for m in facts.table(table) if m)
+    tolerant = _null_tolerant_params(facts, paths)
+    n = 0
+    for f in funcs:
+        ps = paths[f]
+        if not ps:
+            continue
+        found = {}
+        relevant = 0
+        for p in ps:
+            pending = {}
+            for it in p.trace:
+                if it[0] == "atom":
+                    for t in list(pending):
+                        if t in it[1]:
+                            del pending[t]
+                    continue
+                if it[0] == "store":
+                    continue
+                _, c, args, full, line, stmt = it
+                # uses
+                for i, a in enumerate(args):
+                    if a in pending and c not in NULL_TOLERANT \
+                            and (c, i) not in tolerant:
+                        k = (c, pending[a][0])
+                        found.setdefault(k, (a, pending[a][1], line, p))
+                # producers
+                fallible = False
+                if c in API:
+                    fallible = API[c]["err"] == "null" and not API[c]["oom"]
+                    if API[c]["ret"] == "borrowed":
+                        fallible = False    # absent-is-NULL lookups: checked
+                                            # by the lookup rules
+                elif c in may_null:
+                    fallible = _null_paths_feasible(facts, paths[c], c, args)
+                elif c in slot_null:
+                    fallible = slot_null[c]
+                if fallible and not stmt:
+                    pending[full] = (c, line)
+                    relevant += 1
+            # a pending value that is returned is the caller's business
+        if not relevant:
+            continue
+        n += 1
+        res.instance(f, facts.loc(facts.func(f)))
+        if not found:
+            res.oblige(True, f, "", "")
+        for (user, prod), (a, l1, l2, p) in sorted(found.items()):
+            res.violation(f"{f}:unchecked:{prod}:{user}"[:120], f"{CREL}:{l2}",
+                          f"{f}: the result of `{prod}` (line {l1}) can be "
+                          f"NULL with an exception set, and is passed to "
+                          f"`{user}` (line {l2}) without having been compared "
+                          f"with NULL on this path: the failure becomes a "
+                          f"NULL dereference (crash) instead of an exception",
+                          [f"{CREL}:{l}" for l in dict.fromkeys(p.lines) if l])
+    res.floor(20)
